@@ -686,6 +686,8 @@ class TransportLayerLogic:
         self.rate_limiter = RateLimiter(mean_bitrate=self.params.rate_limit_max_bitrate, window_size_sec=self.params.rate_limit_window_size)
         if self.params.rate_limit_enable:
             self.rate_limiter.enable()
+        else:
+            self.rate_limiter.disable()     # A RateLimiter enables itself at construction when its parameters allow it
 
     def send(self,
              data: Union[bytes, bytearray, SendGenerator],
